@@ -401,7 +401,7 @@ fn run(ctx: &mut Ctx) {
             ctx.progress_note(&format!("{} {:?}", mode.prim(), &batch[0]));
             judge_batch(ctx, w, mode, batch);
             ctx.rep.traces_validated += xok_take();
-            if job % 2003 == 5 {
+            if job % 2003 == 5 || ctx.rep.samples.is_empty() {
                 ctx.rep.sample(json!({"primary": mode.prim(), "patterns": batch.iter().take(8).collect::<Vec<_>>(), "subjects": w.l_subj.iter().skip(40).step_by(211).take(6).map(|s| show(s)).collect::<Vec<_>>()}));
             }
         }
